@@ -40,7 +40,7 @@ pub const CALL_KINDS: &[&str] = &[
 	"tuple_struct", "tuple_variant", "map", "map_nohint", "map_split", "struct", "struct_variant",
 ];
 
-/// A union of 3-8 branches in random order, drawn from types that may legally share a union (one per unnamed type,
+/// A union of 3-8 (one time in six 64-70) branches in random order, drawn from types that may legally share a union (one per unnamed type,
 /// any number of named ones): several of them accept the same Rust type with different suitability
 /// (f64: double / float / decimals; integers: int / long / float / double / decimals; str: string / enum / decimals;
 /// bytes: bytes / fixed of that length / string), which is what type-directed selection has to rank.
@@ -66,6 +66,16 @@ fn wide_union(rng: &mut Rng) -> Vec<Node> {
 	rng.shuffle(&mut pool);
 	let n = 3 + rng.below(6);
 	pool.truncate(n);
+	if rng.chance(1, 6) {
+		// branch indices from 63 on: padded with named types, then shuffled so that any of the branches above sits at the edge
+		let total = *rng.pick(&[64usize, 65, 66, 70]);
+		let mut k = 0;
+		while pool.len() < total {
+			pool.push(prim(Kind::Fixed { name: format!("pad.P{k}"), size: 1 + k % 3 }));
+			k += 1;
+		}
+		rng.shuffle(&mut pool);
+	}
 	let mut nodes = vec![prim(Kind::Union((1..=pool.len()).collect()))];
 	nodes.extend(pool);
 	nodes
@@ -143,6 +153,21 @@ fn order_invariance(ctx: &mut Ctx, case_seed: u64, rs: &RSchema, call: &Call, al
 		case_seed,
 		json!({"schema_a": rs.spell(None).compact(), "schema_b": rs2.spell(None).compact(), "call": call.short(), "outcome_a": format!("{a:?}").chars().take(300).collect::<String>(), "outcome_b": format!("{b:?}").chars().take(300).collect::<String>()}),
 	);
+}
+
+/// a duration component as some integer call: mostly u32, otherwise any width, inside or outside 0..2^32
+fn duration_component(rng: &mut Rng) -> Call {
+	match rng.below(12) {
+		0 => Call::I8(*rng.pick(&[-1i8, 0, 5, i8::MIN, i8::MAX])),
+		1 => Call::I16(*rng.pick(&[-1i16, 7, i16::MIN, i16::MAX])),
+		2 => Call::I32(*rng.pick(&[-1i32, 5, i32::MIN, i32::MAX])),
+		3 => Call::I64(*rng.pick(&[-1i64, 9, u32::MAX as i64, u32::MAX as i64 + 1, i64::MIN])),
+		4 => Call::U8(rng.next_u32() as u8),
+		5 => Call::U16(rng.next_u32() as u16),
+		6 => Call::U64(*rng.pick(&[0u64, u32::MAX as u64, u32::MAX as u64 + 1, u64::MAX])),
+		7 => Call::I128(*rng.pick(&[-1i128, 3, 1 << 40])),
+		_ => Call::U32(*rng.pick(&[0, 1, u32::MAX, 1 << 31, 12345])),
+	}
 }
 
 fn prim(k: Kind) -> Node {
@@ -577,15 +602,7 @@ pub fn gen_call(rs: &RSchema, id: Id, kind: &str, rng: &mut Rng, depth: usize) -
 				}
 				Eff::Duration => {
 					let len = *rng.pick(&[3usize, 3, 3, 2, 4]);
-					(0..len)
-						.map(|_| {
-							if rng.chance(1, 12) {
-								Call::I32(5)
-							} else {
-								Call::U32(*rng.pick(&[0, 1, u32::MAX, 1 << 31, 12345]))
-							}
-						})
-						.collect()
+					(0..len).map(|_| duration_component(rng)).collect()
 				}
 				_ => {
 					let len = rng.below(6);
@@ -653,9 +670,9 @@ pub fn gen_call(rs: &RSchema, id: Id, kind: &str, rng: &mut Rng, depth: usize) -
 				}
 				Eff::Duration => {
 					let mut es = vec![
-						("months".to_string(), Call::U32(rng.next_u32())),
-						("days".to_string(), Call::U32(*rng.pick(&[0, u32::MAX]))),
-						("milliseconds".to_string(), Call::U32(rng.next_u32())),
+						("months".to_string(), if rng.coin() { Call::U32(rng.next_u32()) } else { duration_component(rng) }),
+						("days".to_string(), if rng.coin() { Call::U32(*rng.pick(&[0, u32::MAX])) } else { duration_component(rng) }),
+						("milliseconds".to_string(), if rng.coin() { Call::U32(rng.next_u32()) } else { duration_component(rng) }),
 					];
 					match rng.below(6) {
 						0 => {
